@@ -272,7 +272,7 @@ def fam_api_all(seed, tier, workdir):
     return scs, {"api_programs_enumerated": len(progs), "api_spec_states": states, "api_combinations": len(combos)}
 
 
-def gen_spec_behaviours(cfgname, workdir, num, depth, seed, voters):
+def gen_spec_behaviours(cfgname, workdir, num, depth, seed, voters, extra=()):
     """TLC -simulate on Gen.tla: behaviours of Raft.tla with the action, its arguments and the
     observable projection of every node after each step, replayed on real nodes."""
     import shutil, subprocess
@@ -295,7 +295,7 @@ def gen_spec_behaviours(cfgname, workdir, num, depth, seed, voters):
             h = json.load(f)
         if len(h) < 4:
             continue
-        scs.append({"name": "sim-%s-%d-%d" % (cfgname, seed, i), "family": "sim", "voters": voters, "controlled": True,
+        scs.append({"name": "sim-%s-%d-%d" % (cfgname, seed, i), "family": "sim", "voters": voters, "extra": list(extra), "controlled": True,
                     "auto": False, "heal": True, "heal_et": 60, "spec": h})
     shutil.rmtree(os.path.join(d, "md"), ignore_errors=True)
     return scs
@@ -399,12 +399,13 @@ PROPS = {
     "C07": dict(fams=[("core", 3), ("crash", 2)], corpus=["core", "crash"], mc="MC_core3", mc_deep="MC_core3_deep", gen=[("Gen_core3", ["a", "b", "c"], 40)]),
     "C08": dict(fams=[("core", 2), ("crash", 3)], corpus=["core", "crash"], mc="MC_crash3", mc_deep="MC_crash3_deep", hrv=True),
     "C14": dict(fams=[("crash", 3), ("snap", 2)], corpus=["crash", "snap"], mc="MC_crash3", mc_deep="MC_crash3_deep", crashpoints=True),
-    "C09": dict(fams=[("member", 3), ("member5", 3)], corpus=["member"], mc="MC_member", monitor_props=["C01", "C02", "C07", "C09", "C05"]),
+    "C09": dict(fams=[("member", 3), ("member5", 3)], corpus=["member"], mc="MC_member4", mc_module="MC_core3", monitor_props=["C01", "C02", "C07", "C09", "C05"],
+                gen=[("Gen_member4", ["a", "b"], 45, ["c", "d"])]),
     "C10": dict(fams=[("snap", 6)], corpus=["snap"], mc="MC_snap3", gen=[("Gen_snap3", ["a", "b", "c"], 45)]),
     "C11": dict(fams=[("snap", 6)], corpus=["snap"], mc="MC_snap3", gen=[("Gen_snap3", ["a", "b", "c"], 45)]),
     "C12": dict(storage=True),
     "C13": dict(storage=True),
-    "C15": dict(fams=[("core", 2), ("crash", 2), ("snap", 2)], corpus=["core", "crash", "snap"], mc="MC_core3"),
+    "C15": dict(fams=[("core", 2), ("crash", 2), ("snap", 2), ("member5", 2)], corpus=["core", "crash", "snap", "member"], mc="MC_core3"),
     "C16": dict(fams=[("healthy", 6)], corpus=["healthy"], mc=None),
     "C17": dict(fams=[("lease", 6)], corpus=["lease"], mc=None),
     "C18": dict(fams=[("core", 1)], corpus=["api"], api=True, mc=None),
@@ -422,8 +423,9 @@ def gen_scenarios(prop, tier, seed, workdir):
     for fam, w in spec["fams"]:
         for i in range(unit * w):
             scs.append(FAMILIES[fam](seed, i, tier))
-    for cfgname, voters, depth in spec.get("gen", []):
-        scs += gen_spec_behaviours(cfgname, workdir, unit * 4, depth, seed, voters)
+    for g in spec.get("gen", []):
+        cfgname, voters, depth = g[0], g[1], g[2]
+        scs += gen_spec_behaviours(cfgname, workdir, unit * 4, depth, seed, voters, g[3] if len(g) > 3 else ())
     if spec.get("api"):
         a, extra = fam_api_all(seed, tier, workdir)
         scs += a
